@@ -71,7 +71,7 @@ def main():
                 res['checks'] = {}
                 for prop in props:
                     c = sh([PY, os.path.join(VERIF, 'check.py'), 'run', prop, '--wall', str(wall), '--no-selftest'],
-                           env=dict(os.environ, VERIF_REPO=wt), cwd=VERIF, timeout=wall * 4 + 600)
+                           env=dict(os.environ, VERIF_REPO=wt, **(meta.get('env') or {})), cwd=VERIF, timeout=wall * 4 + 600)
                     lines = c.stdout.splitlines()
                     viol = [i for i, ln in enumerate(lines) if ln.startswith('VIOLATION')]
                     res.setdefault('_replays', []).extend(lines[i].split('replay=')[-1].strip() for i in viol)
